@@ -57,6 +57,12 @@ func (k Keeper) MintAndAllocate(ctx sdk.Context) error {
 
 		ctx.Logger().Error(errStr)
 
+		// minting was switched off above (supply already beyond the max supply):
+		// forget the timestamp here too, this branch returns before the reset below
+		if !params.EnableCoinomics {
+			k.SetPrevBlockTS(ctx, sdk.ZeroInt())
+		}
+
 		return nil
 	}
 
